@@ -22,6 +22,18 @@ func c21(p *an.Prog, r *an.R, tier string) {
 	if !r.Anchor(optsT != nil, "zoekt.SearchOptions") {
 		return
 	}
+	// static call sites, for predicate helpers that return a limit comparison
+	callSites := map[*ssa.Function][]ssa.CallInstruction{}
+	for _, f := range p.SSAFuncs() {
+		an.Instrs(f, func(_ *ssa.BasicBlock, in ssa.Instruction) {
+			if c, ok := in.(ssa.CallInstruction); ok {
+				if callee := c.Common().StaticCallee(); callee != nil {
+					callSites[callee] = append(callSites[callee], c)
+				}
+			}
+		})
+	}
+	c21Callers = func(fn *ssa.Function) []ssa.CallInstruction { return callSites[fn] }
 	reads := 0
 	for _, f := range p.SSAFuncs() {
 		if f.Pkg == nil {
@@ -113,6 +125,9 @@ func c21Flow(v ssa.Value, seen map[ssa.Value]bool, depth int) string {
 	return ""
 }
 
+// c21Callers returns the static call sites of a function in the loaded module (set by c21).
+var c21Callers func(fn *ssa.Function) []ssa.CallInstruction
+
 func c21BoolFlow(v ssa.Value, seen map[ssa.Value]bool, depth int) string {
 	if seen[v] || v.Referrers() == nil || depth > 8 {
 		return ""
@@ -132,6 +147,26 @@ func c21BoolFlow(v ssa.Value, seen map[ssa.Value]bool, depth int) string {
 		case *ssa.BinOp:
 			if s := c21BoolFlow(x, seen, depth+1); s != "" {
 				return s
+			}
+		case *ssa.Return:
+			// a predicate helper: the comparison is returned as the function's only (bool) result and every
+			// caller uses that result only in branch conditions
+			fn := x.Parent()
+			if fn == nil || fn.Signature.Results().Len() != 1 || c21Callers == nil {
+				return "is compared and the result is returned"
+			}
+			sites := c21Callers(fn)
+			if len(sites) == 0 {
+				return "is compared and the result is returned by a function whose callers are not visible"
+			}
+			for _, site := range sites {
+				cv, ok := site.(ssa.Value)
+				if !ok {
+					return "is compared and the result is returned to a call made for its effect"
+				}
+				if s := c21BoolFlow(cv, seen, depth+1); s != "" {
+					return s
+				}
 			}
 		default:
 			return fmt.Sprintf("is compared and the result is used by %T (not a branch)", ref)
